@@ -14,6 +14,7 @@ def cases(draw, tier):
     big = tier == 'thorough'
     ncont = draw(st.integers(2, 5 if big else 4))
     sl = lambda: {'op': 'sleep', 'd': draw(st.sampled_from(HOLDS))}  # noqa
+    nested = [0]
 
     def hold(depth):
         body = []
@@ -25,6 +26,13 @@ def cases(draw, tier):
                 body.append({'op': 'instant'})
             elif r < 8:
                 body.append({'op': 'avail', 'i': 0})
+            elif r == 9 and depth == 1:
+                # while holding the lock: a short-lived scope whose child also asks for the lock and is
+                # closed (by the holder itself) when the scope ends
+                nested[0] += 1
+                body.append({'op': 'until', 'name': 'N%d' % nested[0], 'notif': ['delay', draw(st.sampled_from([0.5, 1]))],
+                             'children': [{'name': 'n%d' % nested[0], 'steps': [{'op': 'lock', 'i': 0, 'body': [sl()]}]}],
+                             'body': [{'op': 'sleep', 'd': draw(st.sampled_from([0, 0.5, 1, 2]))}]})
             elif depth < 3:
                 body.append({'op': 'lock', 'i': 0, 'body': hold(depth + 1)})
         return body
